@@ -112,6 +112,20 @@ class DataCase(object):
                     a = float(rng.uniform(0.5, 3))
                     self.doses[k].append((s, d, a))
                     last = s + (0.01 if np.isnan(d) else d)
+        # some dose events may be recorded ON a measurement row (a sample
+        # taken at the moment of dosing): same time, dose and duration
+        # columns filled in next to observable and value
+        self.combined = {}
+        if self.has_doses and rng.random() < 0.3:
+            for k in self.keys:
+                if rng.random() < 0.7:
+                    tt = float(self.meas[k][0][0][int(rng.integers(
+                        len(self.meas[k][0][0])))])
+                    d = float(rng.uniform(0.05, 0.2)) if (
+                        self.with_duration_col and rng.random() < 0.5) \
+                        else np.nan
+                    self.doses[k] = [(tt, d, float(rng.uniform(0.5, 3)))]
+                    self.combined[k] = tt
         # population
         self.pop = rng.random() < 0.55
         self.key_names = dict(id='ID', time='Time', obs='Observable',
@@ -171,6 +185,13 @@ class DataCase(object):
                                 kn['obs']: self.obs_names[o],
                                 kn['value']: float(vv)}
                                for tt, vv in zip(t, v)])
+                if o == 0 and k in self.combined:
+                    for r in blocks[-1]:
+                        if r[kn['time']] == self.combined[k]:
+                            s_, d_, a_ = self.doses[k][0]
+                            r[kn['dose']] = a_
+                            if self.with_duration_col:
+                                r[kn['duration']] = d_
             if decoys:
                 blocks.append([{kn['id']: lab(i), kn['time']: float(tt),
                                 kn['obs']: 'decoy observable',
@@ -186,7 +207,7 @@ class DataCase(object):
             for cname, val in self.cov_rows(k):
                 blocks.append([{kn['id']: lab(i), kn['time']: np.nan,
                                 kn['obs']: cname, kn['value']: float(val)}])
-            if self.has_doses:
+            if self.has_doses and k not in self.combined:
                 rows = []
                 for s, d, a in self.doses[k]:
                     r = {kn['id']: lab(i), kn['time']: s, kn['obs']: np.nan,
